@@ -336,7 +336,109 @@ def r4_database_threading(ctx):
     ctx.floor('calls to database-parameterised callees', n_thread, 10)
 
 
+def r5_pending_filter_exemptions(ctx):
+    """get_app_pending_mutations() is what keeps mutations for models that
+    are not on the database being evolved out of the run: a model routed
+    elsewhere is in neither the stored nor the target signature of this
+    database, so it is never in `changed_models`, and every mutation bound to
+    it is dropped.  The filter may exempt from that test only mutations that
+    are not bound to a model at all (no model_name) and RenameModel (which
+    the optimiser needs and discards itself).  The exemption set is computed
+    by evaluating the filter's other disjuncts over the mutation class
+    hierarchy."""
+    ctx.rule('R-C16.5')
+    p = ctx.program
+    f = p.func('utils.evolutions', 'get_app_pending_mutations')
+    base = p.cls('mutations.base', 'BaseMutation')
+    classes = [c for c in base.all_subclasses()]
+    by_name = {c.name: c for c in classes + [base]}
+
+    def has_model_name(c):
+        for k in c.mro():
+            init = k.methods.get('__init__')
+            if init is not None and any(
+                    is_self_attr(t, 'model_name')
+                    for a in walk_no_nested(init.node)
+                    if isinstance(a, ast.Assign) for t in a.targets):
+                return True
+        return False
+
+    filt = None
+    for n in walk_no_nested(f.node, include_lambda=True):
+        if isinstance(n, ast.comprehension):
+            for t in n.ifs:
+                if 'changed_models' in unparse(t):
+                    filt = (n, t)
+    if filt is None:
+        ctx.finding(f, None, 'pending mutations are no longer filtered by the '
+                    'models that changed on this database',
+                    key='no-changed-models-filter')
+        return
+    comp, test = filt
+    var = comp.target.id if isinstance(comp.target, ast.Name) else 'mutation'
+    disj = test.values if isinstance(test, ast.BoolOp) and \
+        isinstance(test.op, ast.Or) else [test]
+    others = [d for d in disj if 'changed_models' not in unparse(d)]
+    if len(others) == len(disj):
+        ctx.finding(f, test, 'the changed-models test is not a disjunct of '
+                    'the filter', key='filter-shape')
+        return
+
+    def ev(e, c):
+        """truth of a disjunct for an instance of concrete class c; None if
+        unknown"""
+        if isinstance(e, ast.UnaryOp) and isinstance(e.op, ast.Not):
+            v = ev(e.operand, c)
+            return None if v is None else not v
+        if isinstance(e, ast.Call) and call_name(e) == 'hasattr' and \
+                len(e.args) == 2 and const_str(e.args[1]) == 'model_name':
+            return has_model_name(c)
+        if isinstance(e, ast.Call) and call_name(e) == 'isinstance' and \
+                len(e.args) == 2:
+            names = [x.id for x in ast.walk(e.args[1])
+                     if isinstance(x, ast.Name)]
+            if all(nm in by_name for nm in names) and names:
+                return any(by_name[nm] in c.mro() for nm in names)
+        if isinstance(e, ast.BoolOp):
+            vals = [ev(v, c) for v in e.values]
+            if isinstance(e.op, ast.And):
+                if any(v is False for v in vals):
+                    return False
+                return True if all(v is True for v in vals) else None
+            if any(v is True for v in vals):
+                return True
+            return False if all(v is False for v in vals) else None
+        return None
+
+    concrete = [c for c in classes if not c.name.startswith('Base')]
+    ctx.floor('concrete mutation classes', len(concrete), 10)
+    n_bad = 0
+    for c in sorted(concrete, key=lambda x: x.name):
+        vals = [ev(d, c) for d in others]
+        exempt = any(v is True for v in vals)
+        unknown = any(v is None for v in vals) and not exempt
+        if unknown:
+            ctx.finding(f, test, 'cannot decide whether %s is exempt from the '
+                        'changed-models filter (unrecognised condition %s)' %
+                        (c.name, ' / '.join(unparse(d) for d in others)),
+                        key='filter-unknown:%s' % c.name)
+            n_bad += 1
+        elif exempt and has_model_name(c) and c.name != 'RenameModel':
+            ctx.finding(f, test, '%s is bound to a model (model_name) but is '
+                        'exempt from the changed-models filter: a %s for a '
+                        'model routed to another database reaches the '
+                        'mutator and the evolution of this database fails '
+                        '(or is applied here)' % (c.name, c.name),
+                        key='filter-exempts:%s' % c.name)
+            n_bad += 1
+    if not n_bad:
+        ctx.ok(f, 'only model-less mutations and RenameModel are exempt from '
+               'the changed-models filter (%d classes evaluated)' %
+               len(concrete), test)
+
+
 def run(ctx):
+    r5_pending_filter_exemptions(ctx)
     r1_is_mutable_consults_router(ctx)
     r2_router_guarded_membership(ctx)
     r3_mutations_filtered(ctx)
